@@ -716,6 +716,34 @@ def model_jobs(rng):
 
 _EMPTY = {'shape': [1, 1], 'indptr': [0, 0], 'indices': [], 'data': []}
 
+PUBLIC_FUNCTIONS = [
+    ('topology:get_connected_components', {}, None), ('topology:get_core_decomposition', {}, None),
+    ('topology:color_weisfeiler_lehman', {}, None), ('topology:count_cliques', {'clique_size': 3}, None),
+    ('topology:is_bipartite', {}, None), ('topology:get_largest_connected_component', {}, None),
+    ('topology:count_triangles', {}, None), ('topology:is_connected', {}, None),
+    ('path:get_distances', {'source': 0}, None), ('path:get_shortest_path', {'source': 0}, None),
+    ('path:breadth_first_search', {'source': 1}, None),
+    ('utils:get_degrees', {}, None), ('utils:directed2undirected', {}, None), ('linalg:normalize', {}, None),
+    ('clustering:get_modularity', {}, 'clustering:PropagationClustering'),
+    ('hierarchy:dasgupta_score', {}, 'hierarchy:Paris'), ('hierarchy:tree_sampling_divergence', {}, 'hierarchy:Paris'),
+    ('hierarchy:cut_straight', {}, None),
+]
+
+
+def function_jobs(rng):
+    """Public functions without randomness: called twice in process and in every fresh interpreter."""
+    jobs = []
+    for kind in ('und', 'blocks'):
+        inp = make_input(rng, kind, n=rng.randint(8, 14))
+        for fn, kw, lab in PUBLIC_FUNCTIONS:
+            if fn == 'hierarchy:cut_straight':
+                continue
+            j = {'kind': 'fn', 'fn': fn, 'graph': inp['graph'], 'kw': kw}
+            if lab:
+                j['labels_from'] = lab
+            jobs.append(j)
+    return jobs
+
 
 # ------------------------------------------------------------------------------------------------
 # fresh interpreters / thread counts
@@ -1063,8 +1091,8 @@ def run(ctx):
             if i == 0:
                 sweep_inproc[len(sweep_jobs)] = fresh
                 sweep_jobs.append(fj)
-    # seeded graph models: twice in process
-    mj = model_jobs(rng)
+    # seeded graph models and deterministic public functions: twice in process
+    mj = model_jobs(rng) + function_jobs(rng)
     for j in mj:
         before = np.random.get_state()[1].copy()
         a, b = W.run_job(j), W.run_job(j)
